@@ -20,7 +20,13 @@ import (
 // real time enters a verdict, and only for "did not finish at all".
 
 var (
-	hangSince atomic.Int64 // real UnixNano at which the scenario in progress started; 0 = idle
+	// hangGen: number of the scenario in progress (0 = idle); hangTick: advanced at the start of
+	// every execution inside it. Neither holds a time: the code that advances them may run
+	// inside a bubble, where time.Now is the virtual clock. The watcher, outside every bubble,
+	// stamps with the real clock the moment it first sees a new value.
+	hangGen  atomic.Int64
+	hangSeq  atomic.Int64
+	hangTick atomic.Int64
 	hangOnce  atomic.Bool
 	// hangNote: set when the kernel has reached a verdict and releases the tasks to unwind; a
 	// task that then blocks on a real lock keeps the bubble from ending. The watcher waits only
@@ -36,18 +42,14 @@ func hangLimit() time.Duration {
 }
 
 // hangBegin marks the start of a scenario, hangEnd its end.
-func hangBegin() { hangNote.Store(""); hangSince.Store(time.Now().UnixNano()) }
-func hangEnd()   { hangSince.Store(0) }
+func hangBegin() { hangNote.Store(""); hangTick.Add(1); hangGen.Store(hangSeq.Add(1)) }
+func hangEnd()   { hangGen.Store(0) }
 
 // hangTouch restarts the clock of the scenario in progress. A scenario may consist of many
 // executions (C12 renders one message shape once per byte offset and fault mode, C09 parses one
 // stored message under hundreds of damages): the limit applies to each execution, not to their
-// sum. Called at the start of every bubble and of every parse.
-func hangTouch() {
-	if hangSince.Load() != 0 {
-		hangSince.Store(time.Now().UnixNano())
-	}
-}
+// sum. Called at the start of every bubble, of every parse and of every render.
+func hangTouch() { hangTick.Add(1) }
 
 // startHangMonitor starts the watcher once per process. onHang runs on the watcher goroutine
 // while the hung goroutines are still where they are stuck; it must end the process.
@@ -57,19 +59,22 @@ func startHangMonitor(onHang func(stacks string)) {
 	}
 	limit := hangLimit()
 	go func() {
-		var noteFor, noteAt int64
+		var noteFor, noteAt, lastTick, s int64
 		for {
 			time.Sleep(500 * time.Millisecond)
-			s := hangSince.Load()
-			if s == 0 {
+			gen := hangGen.Load()
+			if gen == 0 {
 				continue
 			}
 			now := time.Now().UnixNano()
-			note, _ := hangNote.Load().(string)
-			if note != "" && noteFor != s {
-				noteFor, noteAt = s, now
+			if tk := hangTick.Load(); tk != lastTick || s == 0 {
+				lastTick, s = tk, now // progress since the last look: the clock starts again
 			}
-			unwinding := note != "" && noteFor == s && time.Duration(now-noteAt) > 10*time.Second
+			note, _ := hangNote.Load().(string)
+			if note != "" && noteFor != gen {
+				noteFor, noteAt = gen, now
+			}
+			unwinding := note != "" && noteFor == gen && time.Duration(now-noteAt) > 10*time.Second
 			if time.Duration(now-s) < limit && !unwinding {
 				continue
 			}
